@@ -88,7 +88,18 @@ impl Timer {
         self.last_tick
     }
 
+    /// Discards ticks that were queued but not yet awaited.
+    ///
+    /// The tick channel has a capacity of 1, so a tick that fired before a
+    /// stop, reset or restart would otherwise still be delivered by the next
+    /// call to [`tick`](Self::tick), i.e. after the timer was stopped or
+    /// earlier than one interval after the reset.
+    fn drain_ticks(&mut self) {
+        while self.tick_recv.try_recv().is_ok() {}
+    }
+
     pub fn start(&mut self) {
+        self.drain_ticks();
         self.started = true;
         let (stop_send, stop_recv) = oneshot::channel();
         let (reset_send, reset_recv) = mpsc::channel(1);
@@ -101,10 +112,12 @@ impl Timer {
 
         tokio::spawn(async move {
             tokio::select! {
-                () = Self::timer_inner(interval, tick_send, reset_recv) => { },
+                // A stop must win over a tick that is due at the same time.
+                biased;
                 _ = stop_recv => {
                     debug!("timer stopped");
                 }
+                () = Self::timer_inner(interval, tick_send, reset_recv) => { },
             }
         });
     }
@@ -119,11 +132,13 @@ impl Timer {
         interval.tick().await;
         loop {
             tokio::select! {
-                instant = interval.tick() => {
-                    let _ = tick_send.send(instant).await;
-                }
+                // A reset must win over a tick that is due at the same time.
+                biased;
                 _ = reset_recv.recv() => {
                     interval.reset();
+                }
+                instant = interval.tick() => {
+                    let _ = tick_send.send(instant).await;
                 }
             }
         }
@@ -136,6 +151,7 @@ impl Timer {
         } else {
             warn!("trying to stop stopped timer");
         }
+        self.drain_ticks();
         self.started = false;
     }
 
@@ -147,6 +163,7 @@ impl Timer {
         if let Some(tx) = &self.reset_send {
             let _ = tx.try_send(());
             self.last_reset = Instant::now();
+            self.drain_ticks();
         } else {
             warn!("trying to reset a stopped timer");
         }
